@@ -156,9 +156,13 @@ class SimTransport(transports.Transport):
             return
         snap = bytes(data)
         self.out.sent += snap
-        # zero-copy views: of the caller's object (retained, as the real transport does)
-        # and of the snapshot taken now (the reference)
-        self.out.pending.append((memoryview(data).cast("B"), memoryview(snap)))
+        # Retention as in CPython 3.12's selector transport: when nothing is queued the
+        # transport tries to send at once and keeps a memoryview of the unsent rest (a buffer
+        # export: a bytearray cannot be resized while it is queued); when data is already
+        # queued it appends the caller's object itself (a plain reference: the caller CAN
+        # still clear or refill it).  Alongside goes a view of the snapshot taken now.
+        keep = memoryview(data).cast("B") if not self.out.pending_bytes and not self.out.inflight else data
+        self.out.pending.append((keep, 0, len(snap), memoryview(snap)))
         self.out.pending_bytes += len(snap)
         self.net.pump(self.out)
         self._maybe_pause()
@@ -271,15 +275,15 @@ class SimNet:
             parts = []
             need = n
             while need > 0:
-                obj, snap = pipe.pending[0]
-                if len(snap) <= need:
+                obj, a, b, snap = pipe.pending[0]
+                if b - a <= need:
                     pipe.pending.popleft()
-                    parts.append((obj, snap))
-                    need -= len(snap)
+                    parts.append((obj, a, b, snap))
+                    need -= b - a
                 else:
-                    # split a retained object: both halves stay views of the SAME object
-                    parts.append((obj[:need], snap[:need]))
-                    pipe.pending[0] = (obj[need:], snap[need:])
+                    # split a retained object: both halves keep referring to the SAME object
+                    parts.append((obj, a, a + need, snap[:need]))
+                    pipe.pending[0] = (obj, a + need, b, snap[need:])
                     need = 0
             pipe.pending_bytes -= n
             pipe.inflight += n
@@ -305,8 +309,9 @@ class SimNet:
         if pipe.dead:
             return
         chunk = bytearray()
-        for obj, snap in parts:
-            now_bytes = bytes(obj)  # what the retained object holds NOW
+        for obj, a, b, snap in parts:
+            with memoryview(obj) as view:
+                now_bytes = bytes(view.cast("B")[a:b])  # what the retained object holds NOW
             if now_bytes != snap:
                 pipe.mutated_before_delivery += 1
                 self.stats["retained_buffer_mutated"] += 1
